@@ -144,6 +144,7 @@ type Interp struct {
 	initRoot  *ssa.Package
 	wc        *workerCache
 	pending   []pendingAssert
+	asserted  []*sym.Term
 	pc        []*sym.Term
 }
 
